@@ -9,6 +9,7 @@ import AkdModel.Wire
 import AkdModel.Cfg
 import AkdModel.Show
 import AkdModel.Adv
+import AkdModel.Spec
 open Akd Akd.Wire
 
 structure DState where
@@ -16,6 +17,9 @@ structure DState where
   dir : Dir := {}
   /-- the `(epoch, root hash)` pairs publish returned, plus epoch 0 -/
   roots : List (Nat × Dig) := []
+  /-- every batch handed to publish, accepted or not (the specification decides) -/
+  hist : List (List (Bytes × Bytes)) := []
+  cuts : Spec.Cuts := []
 
 def parsePairs : List String → Option (List (Bytes × Bytes))
   | [] => some []
@@ -99,6 +103,7 @@ def stepL1 (st : DState) (toks : List String) : Option (DState × String) :=
     some ({ st with dir := { st.dir with vrf := (⟨u, fresh, v⟩, l) :: st.dir.vrf } }, "ok")
   | "dir.publish" :: rest => do
     let ps ← parsePairs rest
+    let st := { st with hist := st.hist ++ [ps] }
     match st.dir.publish c ps with
     | .ok (d, ep, h) =>
       let roots := if st.roots.any (fun r => r.1 = ep) then st.roots else st.roots ++ [(ep, h)]
@@ -122,7 +127,7 @@ def stepL1 (st : DState) (toks : List String) : Option (DState × String) :=
     let u ← parseHex? u
     let e ← e.toNat?
     match st.dir.tombstone u e with
-    | .ok d => some ({ st with dir := d }, "ok")
+    | .ok d => some ({ st with dir := d, cuts := (u, e) :: st.cuts }, "ok")
     | .error _ => some (st, "err")
   | ["dir.dump"] =>
     let az := match st.dir.azks with | some a => s!"azks({a.latestEpoch},{a.numNodes})" | none => "azks(-)"
@@ -151,6 +156,29 @@ def stepL1 (st : DState) (toks : List String) : Option (DState × String) :=
       let hashes := (List.range (e - s + 1)).filterMap fun i => (st.roots.find? (fun r => r.1 = s + i)).map (·.2)
       some (st, showV (fun _ => "") (Auditor.verify c hashes ap))
     | .error _ => some (st, "err")
+  | ["spec.root"] =>
+    let sp := Spec.run st.hist
+    some (st, s!"{sp.epoch} {Show.dig (Spec.rootHash c st.dir.commitmentKey st.dir.vrf sp)}")
+  | ["spec.lookup", u] => do
+    let u ← parseHex? u
+    match Spec.lookup (Spec.run st.hist) u with
+    | some v => some (st, s!"ok ({v.epoch},{v.version},{hexOfBytes v.value})")
+    | none => some (st, "none")
+  | ["spec.history", u, p] => do
+    let u ← parseHex? u
+    let p ← parseParams p
+    match Spec.history (Spec.run st.hist) u p with
+    | [] => some (st, "none")
+    | vs => some (st, "ok " ++ " ".intercalate (vs.map fun v => s!"({v.epoch},{v.version},{hexOfBytes v.value})"))
+  | ["spec.history.tomb", u, p, allow] => do
+    let u ← parseHex? u
+    let p ← parseParams p
+    let allow ← if allow == "allow" then some true else if allow == "default" then some false else none
+    let sp := Spec.run st.hist
+    if (Spec.history sp u p).isEmpty then some (st, "err")
+    else match Spec.historyTomb sp st.cuts u p allow with
+      | some vs => some (st, "ok " ++ " ".intercalate (vs.map fun v => s!"({v.epoch},{v.version},{hexOfBytes v.value})"))
+      | none => some (st, "rej")
   | "azks.insert" :: mode :: rest => do
     let m ← if mode == "dir" then some InsertMode.directory else if mode == "aud" then some InsertMode.auditor else none
     let els ← parseElems rest
